@@ -57,6 +57,14 @@ SPECS = {
         "explanation": "Theorems over the Document.Update state machine with the CRDT layer abstracted (Section variables): a failing update changes nothing and drops the clone; clone = root is invariant under every sequence of updates given [proxy_agrees]. The hypothesis is what the engine validates on the real code: Root().Marshal() = Marshal() after every step of histories with failing/panicking updaters, remote packs, GC and undo/redo; and the all-or-nothing fingerprint (content, pending changes, checkpoint, vector, undo depth) around every failing update.",
         "assumptions": ["[proxy_agrees] (executing the pushed operations on the root reproduces what the json proxy did to the clone) is a hypothesis of C08_clone_equals_root, validated differentially, not proved for the real json/operations code"],
     },
+    "C10": {
+        "corr": ["Proto"],
+        "engines": [
+            {"name": "hist", "tag": "c10", "extra": "prop=C10", "n": {"quick": 500, "thorough": 6000}},
+        ],
+        "explanation": "Theorems on the protocol model: non-forced compaction is refused while a client is attached; a compaction bumps the epoch, leaves at most one row and purges the vector rows; a client of an older epoch can add nothing to the log whatever it sends, its pull is refused with ErrEpochMismatch, its detach goes through. Histories with normal and forced compactions (run through the cluster client as housekeeping does), stale syncs with unsent edits, detaches and fresh attaches are executed on the real server and replayed through the model; oracles on the implementation: content of the server document before = content rebuilt from the compacted log, refused compaction changes nothing, stale sync is refused and stores nothing, stale detach succeeds, everybody converges after re-attaching.",
+        "assumptions": ["content preservation rests on the rebuild-and-compare step of packs.Compact (YSON round trip, property C18): oracle, not theorem"],
+    },
     "C11": {
         "corr": ["Life", "Proto"],
         "engines": [
